@@ -16,7 +16,7 @@ import threading
 import time
 from typing import Any
 
-WAIT_S = 30.0  # a task that is not released within this time aborts (reported as a hang)
+WAIT_S = 150.0  # a task that is not released within this time aborts; the abort is recorded and the run discarded
 
 
 class TaskError(ValueError):
@@ -39,9 +39,31 @@ class Gate:
             ctx = multiprocessing.get_context("fork")
             self.release = [ctx.Event() for _ in range(n)]
             self.started = ctx.Queue()
+            self._timeouts = ctx.Value("i", 0)
         else:
             self.release = [threading.Event() for _ in range(n)]
             self.started = queue.Queue()
+            self._timeouts = None
+            self._n_timeouts = 0
+            self._lock = threading.Lock()
+
+    def pass_through(self, k: int) -> None:
+        """Report that gate `k` is reached (with the identity of the worker) and block until the
+        harness opens it.  A gate that is not opened in time aborts the task **and is recorded**: the
+        harness then discards the run (a time-out of the machinery is never a verdict)."""
+        self.started.put((k, os.getpid(), threading.get_ident()))
+        if not self.release[k].wait(WAIT_S):
+            if self._timeouts is not None:
+                with self._timeouts.get_lock():
+                    self._timeouts.value += 1
+            else:
+                with self._lock:
+                    self._n_timeouts += 1
+            raise GateTimeout(k)
+
+    @property
+    def timeouts(self) -> int:
+        return self._timeouts.value if self._timeouts is not None else self._n_timeouts
 
     def open_all(self) -> None:
         for e in self.release:
@@ -68,9 +90,10 @@ class GatedCallable:
     def __call__(self, x: Any) -> Any:
         k = self.key_of[x]
         if self.gate is not None:
-            self.gate.started.put((k, os.getpid(), threading.get_ident()))
-            if self.sleep is None and not self.gate.release[k].wait(WAIT_S):
-                raise GateTimeout(k)
+            if self.sleep is None:
+                self.gate.pass_through(k)
+            else:
+                self.gate.started.put((k, os.getpid(), threading.get_ident()))
         if self.sleep is not None:
             time.sleep(self.sleep[k])
         out = self.outcomes[k]
